@@ -75,7 +75,11 @@ class Result:
         for s in o.samples:
             if len(self.samples) < 6:
                 self.samples.append(s)
-        self.extra.update(o.extra)
+        for k, v in o.extra.items():
+            if k.startswith("max_") or k.endswith("_completed"):
+                self.extra[k] = max(self.extra.get(k, 0), v)
+            else:
+                self.extra[k] += v
         self.notes |= o.notes
 
     def digest(self):
